@@ -534,6 +534,14 @@ func (o *objectGoReflect) setReflectValue(v reflect.Value) {
 	o.fieldsValue = v
 	o.origValue = v
 	o.methodsValue = v.Addr()
+	// the field wrappers handed out by this wrapper move with it
+	for name, w := range o.valueCache {
+		if f := o._getField(name); f.IsValid() {
+			w.setReflectValue(f)
+		} else {
+			delete(o.valueCache, name)
+		}
+	}
 }
 
 func (o *objectGoReflect) esValue() Value {
